@@ -61,6 +61,8 @@ def gen(rng, tier, index):
             plan["R"] = rot.quat_axis_angle(rng.normal(size=3), np.pi + float(rng.uniform(-0.4, 0.4))).tolist()
         plan["r"] = rng.uniform(-2, 2, 3).tolist()
         plan["placed"] = bool(rng.random() < 0.6)
+        if rng.random() < 0.4:
+            plan["lead_body"] = {"m": float(rng.uniform(0.5, 2)), "theta": rng.uniform(0.1, 0.5, 3).tolist(), "offset": rng.uniform(-0.5, 0.5, 3).tolist()}
         if kind == "frame":
             plan["tol"] = 1e-10
         if kind == "cantilever_fault":
@@ -110,7 +112,18 @@ def build_cantilever(plan, moved):
     Mo = np.array(plan["moment"])
     force = Force(lambda t, F=F: t * F, rod, (1,), name="tip_force")
     moment = B_Moment(lambda t, Mo=Mo: t * Mo, rod, (1,), name="tip_moment")
-    system.add(frame, rod, clamp, force, moment)
+    if plan.get("lead_body"):
+        # another contribution with coordinates is registered before the rod (welded to the support): the rod's
+        # coordinates then do not start at index 0 of the system's vector
+        from cardillo.discrete import RigidBody
+
+        lb = plan["lead_body"]
+        rb = r + R @ np.array(lb["offset"])
+        body = RigidBody(lb["m"], np.diag(lb["theta"]), q0=np.concatenate([rb, rot.mat_to_quat(R)]), name="lead_body")
+        weld = RigidConnection(frame, body, name="weld")
+        system.add(frame, body, weld, rod, clamp, force, moment)
+    else:
+        system.add(frame, rod, clamp, force, moment)
     with contextlib.redirect_stdout(io.StringIO()):
         system.assemble(options=SolverOptions(compute_consistent_initial_conditions=False))
     return system, rod
